@@ -128,7 +128,7 @@ ALL_MENU = (
     "ins:raise", "ins:probe", "ins:res", "ins:mkitem", "ins:mkchild", "ins:sync", "ins:iv", "ins:yempty", "ins:ynone",
     "wrap:try", "wrap:A", "wrap:N", "wrap:S0", "wrap:S1", "wrap:P0", "wrap:Xp", "wrap:Xr", "wrap:Xq",
     "flush:raise", "flush:raiseB", "flush:new", "flush:setraise", "flush:nested", "flush:fcancel", "flush:fcancelraise", "flush:setfcancel", "flush:hooknested",
-    "leaf:dd", "ins:ddirty", "item:errf", "ins:caught", "leaf:cw", "wrap:ovl", "leaf:bt", "ins:cancel", "leaf:dd1",
+    "leaf:dd", "ins:ddirty", "item:errf", "ins:caught", "leaf:cw", "wrap:ovl", "leaf:bt", "ins:cancel", "leaf:dd1", "leaf:cu",
 )
 DD_ALTS = (("f", 1, "pos"), ("f", 1, "kw"), ("f", 1, "def"), ("f", 2, "pos"), ("g", 1, "pos"),
            ("mx", 1, "pos"), ("mx", 1, "mix"), ("my", 1, "pos"), ("s", 1, "pos"), ("sx", 1, "def"), ("h", 1, "pos"),
@@ -373,9 +373,11 @@ def _struct_variants(s, ctx, allow_shared, made, top):
             yield ("c", nt), nsh
         if "leaf:cw" in menu:
             yield ("cw", s[1]), None
-    elif op == "cw":
+        if "leaf:cu" in menu:
+            yield ("cu", s[1]), None
+    elif op in ("cw", "cu"):
         for nt, nsh in _task_variants(s[1], ctx, allow_shared):
-            yield ("cw", nt), nsh
+            yield (op, nt), nsh
 
 
 def deviated(base, menu, k):
